@@ -12,7 +12,9 @@ from bp.encoding import (Bundle, PrimaryBlock, CanonicalBlock, Timestamp, HopCou
                          BundleAgeBlock, AdminRecord, StatusReport, StatusInfoArray, StatusInfo)
 
 INTS = [0, 1, 23, 24, 255, 256, 65535, 65536, 2 ** 32 - 1, 2 ** 32, 2 ** 64 - 1]
-EIDS = ['dtn:none', 'dtn://node/svc', 'dtn://n/', 'dtn:~neighbor', 'ipn:1.2', 'ipn:4294967296.0', 'dtn://αβγ/x']
+# boundary representatives: the null endpoint of either scheme, node-only and service EIDs, large ipn numbers
+EIDS = ['dtn:none', 'dtn://node/svc', 'dtn://n/', 'dtn:~neighbor', 'ipn:1.2', 'ipn:4294967296.0', 'dtn://αβγ/x',
+        'ipn:0.0', 'ipn:0.1', 'ipn:23.24', 'ipn:18446744073709551615.255']
 FLAGBITS = [0x2, 0x4, 0x20, 0x40, 0x4000, 0x10000, 0x20000, 0x40000]
 
 
